@@ -401,21 +401,9 @@ def check(run):
     # ------------------------------------------------------------------ O15.5
     o = run.ob("O15.5", "verdict plumbing: check_proof / check_proof_last hash the given leaf and return the verdict of the hash-level check for the same index/root/proof",
                "a wrapper passing another index or ignoring the result defeats the check", floor=2)
-    for fn, inner in (("check_proof", "check_hash_proof"), ("check_proof_last", "check_hash_proof_last")):
-        b = prog.body(MT + fn)
-        if b is None:
-            o.missing("MerkleTree::" + fn)
-            continue
-        cs = b.calls_to(MT + inner)
-        ok = len(cs) == 1 and cs[0].dst["l"] == 0
-        if ok:
-            c = cs[0]
-            a = [b.operand_term(x) for x in c.args]
-            ok = K.mentions_call(a[0], "hash_leaf") and a[1] == ("param", 2, b.local_name(2)) and a[2][0] == "param" and a[3][0] == "param"
-        o.check(bool(ok), "%s|delegates" % fn, "%s(leaf, index, root, proof) = %s(hash_leaf(leaf), index, root, proof)" % (fn, inner), b.span)
-    b = prog.body(MT + "check_hash_proof_last")
-    if b is not None:
-        fam = prog.family(MT + "check_hash_proof_last")
+    def last_verdict(b, hashed):
+        """the body decides 'last leaf' correctly: true only when derive_hash_root_last(hash, index, proof) is Some(d) and d == root"""
+        fam = prog.family(b.defpath)
         ok = True
         nrows = 0
         for atoms, ret, blocks in paths.decision_table(b, prog):
@@ -425,8 +413,7 @@ def check(run):
             conds = list(atoms)
             if not (ret is not None and ret[0] == "const"):
                 if ret is None:
-                    ok = False
-                    break
+                    return False
                 conds.append(G.norm_bool(ret, True))
             derived = any(c[0] == "is_some" and c[2] is True and K.mentions_call(c[1][0], "derive_hash_root_last") for c in conds)
             cmp_root = any(c[0] == "eq" and c[2] is True and any(K.mentions_arg(b, x, 3) for x in c[1]) and any(K.mentions_call(x, "derive_hash_root_last") for x in c[1]) for c in conds)
@@ -436,4 +423,31 @@ def check(run):
                     via_closure = any(any(x.name.rsplit("::", 1)[-1] == "eq" for x in fb.calls()) for fb in fam if fb.is_closure)
             if not ((derived and cmp_root) or via_closure):
                 ok = False
-        o.check(ok and nrows >= 1 and any(c.name == MT + "derive_hash_root_last" for c in b.calls()), "check_hash_proof_last|verdict", "verdict is true only when derive_hash_root_last(..) is Some(derived) and derived == root", b.span)
+        dc = [c for c in b.calls() if c.name == MT + "derive_hash_root_last"]
+        okargs = len(dc) == 1
+        if okargs:
+            a_ = [b.operand_term(x) for x in dc[0].args]
+            okargs = (K.mentions_call(a_[0], "hash_leaf") if hashed else K.is_arg(b, a_[0], 1)) and K.is_arg(b, a_[1], 2) and K.is_arg(b, a_[2], 4)
+        return ok and nrows >= 1 and okargs
+
+    for fn, inner in (("check_proof", "check_hash_proof"), ("check_proof_last", "check_hash_proof_last")):
+        b = prog.body(MT + fn)
+        if b is None:
+            o.missing("MerkleTree::" + fn)
+            continue
+        cs = b.calls_to(MT + inner)
+        if not cs and fn == "check_proof_last" and prog.body(MT + inner) is None:
+            # the hash-level helper was folded into the wrapper: the wrapper itself must decide as the helper did
+            o.check(last_verdict(b, True), "%s|delegates" % fn, "%s hashes the leaf and is true only when derive_hash_root_last(hash, index, proof) == Some(root)" % fn, b.span)
+            continue
+        ok = len(cs) == 1 and cs[0].dst["l"] == 0
+        if ok:
+            c = cs[0]
+            a = [b.operand_term(x) for x in c.args]
+            ok = K.mentions_call(a[0], "hash_leaf") and a[1] == ("param", 2, b.local_name(2)) and a[2][0] == "param" and a[3][0] == "param"
+        o.check(bool(ok), "%s|delegates" % fn, "%s(leaf, index, root, proof) = %s(hash_leaf(leaf), index, root, proof)" % (fn, inner), b.span)
+    b = prog.body(MT + "check_hash_proof_last")
+    if b is not None:
+        o.check(last_verdict(b, False), "check_hash_proof_last|verdict", "verdict is true only when derive_hash_root_last(..) is Some(derived) and derived == root", b.span)
+    else:
+        o.ok("check_hash_proof_last|verdict", "folded into check_proof_last (checked there)", "", nontrivial=False)
